@@ -59,6 +59,14 @@ func snapshot(e *env.Env) string {
 	return "{" + strings.Join(out, " ") + "}"
 }
 
+func firstN(xs []string, n int) []string {
+	sort.Strings(xs)
+	if len(xs) > n {
+		return xs[:n]
+	}
+	return xs
+}
+
 func freshShared() (*env.Env, *env.Env) {
 	parent := env.NewEnv()
 	_ = parent.Define("p", int64(100))
@@ -159,6 +167,82 @@ func streamEnvConc(o *Out, r *rand.Rand, n int, thorough bool) {
 					Detail: fmt.Sprintf("observed %s; no one-at-a-time order of the operations produces it (%d orders tried)", got, len(allowed))})
 				break
 			}
+		}
+	}
+	// snapshot consistency: one writer runs a known sequence (value v_i, then type t_i, for i = 0..K-1) while
+	// readers copy the scope; every copy must be one of the K*2+1 states the scope passed through:
+	// values {v_0..v_a-1}, types {t_0..t_b-1} with b <= a <= b+1
+	rounds := 40
+	if thorough {
+		rounds = 400
+	}
+	const K = 120
+	tornReported := false
+	for round := 0; round < rounds && !tornReported; round++ {
+		_, shared := freshShared()
+		shared.Delete("a")
+		done := make(chan struct{})
+		var wg sync.WaitGroup
+		var mu sync.Mutex
+		var torn string
+		copies := 0
+		for g := 0; g < 3; g++ {
+			wg.Add(1)
+			go func(g int) {
+				defer wg.Done()
+				for {
+					select {
+					case <-done:
+						return
+					default:
+					}
+					var c *env.Env
+					if g == 2 {
+						c = shared.DeepCopy()
+					} else {
+						c = shared.Copy()
+					}
+					vs, ts := c.GetValueSymbols(), c.GetTypeSymbols()
+					a, b := len(vs), len(ts)
+					bad := !(b <= a && a <= b+1)
+					have := map[string]bool{}
+					for _, x := range vs {
+						have[x] = true
+					}
+					for _, x := range ts {
+						have[x] = true
+					}
+					for i := 0; i < a && !bad; i++ {
+						if !have[fmt.Sprintf("v%d", i)] {
+							bad = true
+						}
+					}
+					for i := 0; i < b && !bad; i++ {
+						if !have[fmt.Sprintf("t%d", i)] {
+							bad = true
+						}
+					}
+					mu.Lock()
+					copies++
+					if bad && torn == "" {
+						torn = fmt.Sprintf("copy holds %d values and %d types (values %v..., types %v...)", a, b, firstN(vs, 3), firstN(ts, 3))
+					}
+					mu.Unlock()
+				}
+			}(g)
+		}
+		for i := 0; i < K; i++ {
+			_ = shared.Define(fmt.Sprintf("v%d", i), int64(i))
+			_ = shared.DefineType(fmt.Sprintf("t%d", i), int64(0))
+		}
+		close(done)
+		wg.Wait()
+		o.Sum.Evaluations += copies
+		o.Sum.Hist["snapshot-copies"] += copies
+		if torn != "" {
+			tornReported = true
+			o.Fail(Failure{Oracle: "copy-is-a-snapshot", Key: "env-torn-copy", Input: fmt.Sprintf("writer: Define(v_i), DefineType(t_i) for i < %d on one scope; readers: Copy / DeepCopy", K),
+				Detail: torn + "; the scope never was in that state (after t_i is defined v_i exists)"})
 		}
 	}
 	// stress for the race detector: many goroutines hammering one scope (results unchecked)
